@@ -42,6 +42,7 @@ def _elem(x):
 class PrefetchFamily(common.Family):
   prop = 'C15'
   name = 'prefetch'
+  max_steps = 1_000_000
 
   def gen(self, rng, tier):
     n = rng.randrange(0, 10)
